@@ -88,7 +88,7 @@ def gen_case(rng, tier, small=False):
     g = np.random.default_rng(rng.getrandbits(48))
     cls = rng.choice(["herm", "herm", "nonherm", "lindblad"])
     big = (tier == "thorough") or rng.random() < 0.08
-    nmax = 6 if small else (256 if big else 48)
+    nmax = 9 if small else (256 if big else 48)
     if cls == "lindblad":
         d = rng.randint(1, max(1, int(math.isqrt(nmax))))
         n = d * d
@@ -133,6 +133,8 @@ def gen_case(rng, tier, small=False):
     md = rng.choice([1, 2, 3, 5, 8, 10, 20, 30, 50, 80, 100, rng.randint(1, 100), rng.randint(1, 100)])
     if small:
         md = rng.randint(1, 8)
+        if sub in ("gue", "chain", "lindblad") and n > 2:
+            md = rng.randint(1, n - 1)      # dense stream: stay short of the invariant subspace (noise-level n2)
     return dict(cls=cls, sub=sub, n=n, a=a, v=v, shape=shape, herm=herm, tol=tol, norm_tol=tol, md=md)
 
 
